@@ -48,12 +48,17 @@ def outcomes(logic, func, frame=None, boolean=True, depth=2):
                     alts = alts[:MAX_ALTS]
             elif e.kind in ('for', 'for0'):
                 it = canon.c(e.node.iter, e.frame)
+                sing = elem_singletons(canon, e.node.iter, e.frame)
                 if e.kind == 'for0':
+                    if sing:
+                        dead = True      # a collection made of the simulation's singletons is not empty
+                        break
                     alts = [a + [Lit('empty(%s)' % it, True)] for a in alts]
                 else:
                     vs = [canon.c(n, e.frame) for n in ast.walk(e.node.target)
                           if isinstance(n, ast.Name)]
-                    loops.append((e.node, vs, it, [len(a) for a in alts]))
+                    loops.append((e.node, vs, it if not sing else ('<each>', sorted(sing)),
+                                  [len(a) for a in alts]))
             elif e.kind == 'back' and loops and loops[-1][0] is e.node:
                 _, vs, it, starts = loops.pop()
                 alts = [_quantify(a, s, vs, it, 'forall') for a, s in zip(alts, _pad(starts, alts))]
@@ -63,6 +68,8 @@ def outcomes(logic, func, frame=None, boolean=True, depth=2):
         while loops:
             _, vs, it, starts = loops.pop()
             alts = [_quantify(a, s, vs, it, 'exists') for a, s in zip(alts, _pad(starts, alts))]
+        if dead:
+            continue
         if p.exit == 'raise':
             for a in alts:
                 res.append(Outcome(a, 'raise', p, None))
@@ -176,10 +183,84 @@ def _quantify(lits, start, vs, it, q):
     out = list(lits[:start])
     for l in lits[start:]:
         if any(_mentions(l.atom, v) for v in vs):
-            out.append(quantified(q, vs, it, l))
+            if isinstance(it, tuple) and it[0] == '<each>' and len(vs) == 1 and q == 'forall':
+                # the loop runs over known singleton objects: state the literal for each of them
+                for t in it[1]:
+                    atom = re.sub(r'(?<![\w#.$])%s(?![\w])' % re.escape(vs[0]), t, l.atom)
+                    out.append(_reorder_eq(Lit(atom, l.pol)))
+            else:
+                out.append(quantified(q, vs, it if not isinstance(it, tuple) else '|'.join(it[1]), l))
         else:
             out.append(l)
     return out
+
+
+def _reorder_eq(l):
+    if ' == ' in l.atom and not l.atom.startswith(('forall', 'exists')):
+        a, b = l.atom.split(' == ', 1)
+        a, b = sorted([a, b])
+        return Lit('%s == %s' % (a, b), l.pol)
+    return l
+
+
+def elem_singletons(canon, it, frame, _d=0):
+    """class names when every element of the iterable is one of the simulation's singleton
+    objects (e.g. [self.hot[b] for b in self.hot] + [self.cold[b] for b in self.cold]); else empty"""
+    from .norm import SINGLETONS
+    from .paths import assigned_names
+    repo = canon.repo
+    if _d > 6 or frame is None:
+        return set()
+
+    def single(expr):
+        ts = {canon.class_name(t) for t in repo.expr_types(expr, frame.func)}
+        return ts if ts and ts <= SINGLETONS else set()
+    if isinstance(it, ast.Name):
+        defs = assigned_names(frame.func).get(it.id, [])
+        if not defs or it.id in frame.func.params:
+            return set()
+        out = set()
+        for n in defs:
+            v = n.value if isinstance(n, (ast.Assign, ast.AugAssign)) else None
+            if v is None:
+                return set()
+            s = elem_singletons(canon, v, frame, _d + 1)
+            if not s:
+                return set()
+            out |= s
+        return out
+    if isinstance(it, (ast.ListComp, ast.GeneratorExp)) and len(it.generators) == 1:
+        return single(it.elt)
+    if isinstance(it, (ast.List, ast.Tuple)) and it.elts:
+        out = set()
+        for x in it.elts:
+            s = elem_singletons(canon, x.value, frame, _d + 1) if isinstance(x, ast.Starred) else single(x)
+            if not s:
+                return set()
+            out |= s
+        return out
+    if isinstance(it, ast.BinOp) and isinstance(it.op, ast.Add):
+        a = elem_singletons(canon, it.left, frame, _d + 1)
+        b = elem_singletons(canon, it.right, frame, _d + 1)
+        return (a | b) if a and b else set()
+    if isinstance(it, ast.Call):
+        fn = it.func
+        if isinstance(fn, ast.Name) and fn.id in ('list', 'tuple') and len(it.args) == 1:
+            return elem_singletons(canon, it.args[0], frame, _d + 1)
+        if isinstance(fn, ast.Attribute) and fn.attr == 'values' and not it.args and isinstance(fn.value, ast.Attribute):
+            out = set()
+            for b in repo.expr_types(fn.value.value, frame.func):
+                out |= {canon.class_name(t) for t in repo.elem_types.get((b, fn.value.attr), set())}
+            return out if out and out <= SINGLETONS else set()
+        if isinstance(fn, ast.Name) and fn.id == 'chain' or (isinstance(fn, ast.Attribute) and fn.attr == 'chain'):
+            out = set()
+            for a in it.args:
+                s = elem_singletons(canon, a, frame, _d + 1)
+                if not s:
+                    return set()
+                out |= s
+            return out
+    return set()
 
 
 def contradictory(lits):
